@@ -506,6 +506,13 @@ func (ex *Exec) runPath(fn *ssa.Function) (ps PathStat) {
 		switch x := r.(type) {
 		case pathEnd:
 			ps.Kind, ps.Msg = x.kind, x.msg
+			if x.kind == "blocked" && ex.violation == nil {
+				func() {
+					defer func() { recover() }()
+					ex.fail("noblock", x.msg)
+				}()
+				ps.Kind = "violation"
+			}
 		case *goPanic:
 			ps.Kind, ps.Msg = "panic", x.msg
 			if ex.violation == nil {
